@@ -274,7 +274,8 @@ def prior_variants(srcname, srce):
 
 def run_case(case):
     """returns list of (key, message)"""
-    srcname, srce, priorname, prior, delete, cwdkind, ntargets, follow, extra = case
+    srcname, srce, priorname, prior, delete, cwdkind, ntargets, follow, extra = case[:9]
+    prior2 = case[9] if len(case) > 9 else None  # (name, tree) for the second target, None = same as first
     tmp = tempfile.mkdtemp(prefix="c17-", dir="/dev/shm" if os.path.isdir("/dev/shm") else None)
     tmp = os.path.realpath(tmp)
     bad = []
@@ -286,8 +287,9 @@ def run_case(case):
         dests = []
         for i in range(ntargets):
             d = os.path.join(tmp, f"dst{i}")
-            ptree = dict(BASE) if priorname != "absent" or extra else {}
-            ptree.update(prior)
+            pn, pt = (priorname, prior) if i == 0 or prior2 is None else prior2
+            ptree = dict(BASE) if pn != "absent" or extra else {}
+            ptree.update(pt)
             if extra:
                 ptree["unrelated"] = F("bin", 0o640, T2)
                 ptree["sub/unrelated2"] = F("a", 0o600, T1)
@@ -299,7 +301,7 @@ def run_case(case):
         cwd = {"outside": outside, "root": src, "subdir": os.path.join(src, "sub")}[cwdkind]
         priors = [snapshot(d) if os.path.isdir(d) else {} for d in dests]
         res = do_sync(src, dests, delete, cwd, rel_src=(cwdkind != "outside"))
-        ident = f"src={srcname} prior={priorname} delete={delete} cwd={cwdkind} targets={ntargets} extra={extra}"
+        ident = f"src={srcname} prior={priorname}{'+' + prior2[0] if prior2 else ''} delete={delete} cwd={cwdkind} targets={ntargets} extra={extra}"
         if not res.get("done") or res.get("send") != "ok":
             bad.append(("send-failed", f"[{ident}] RSync.send(): {res.get('send')} done={res.get('done')} blocked={res.get('blocked')} stderr={res.get('stderr')}"))
             return bad
@@ -401,6 +403,15 @@ def cases(tier):
                                 if follow in ("modify-content", "modify-mode", "modify-samelen") and not srcname.startswith("f-"):
                                     continue
                                 out.append((srcname, srce, priorname, prior, delete, cwdkind, ntargets, follow, extra))
+        # several targets whose prior states differ (the decision per target must not leak into another)
+        pv = prior_variants(srcname, srce)
+        for (n1, p1), (n2, p2) in __import__("itertools").permutations(pv, 2):
+            if tier == "quick" and not ({n1, n2} & {"absent", "other-mtime", "identical"} or srcname.startswith("d-")):
+                continue
+            for delete in (False, True):
+                if tier == "quick" and delete and hash((srcname, n1, n2)) % 3:
+                    continue
+                out.append((srcname, srce, n1, p1, delete, "outside", 2, "none", False, (n2, p2)))
     return out
 
 
